@@ -246,3 +246,12 @@ Fixpoint begin_ids (m : mux) (ls : list label) : list (list N) :=
     | _ => []
     end
   end.
+
+(** the routes accepted along a run are exactly its LRegister labels *)
+Fixpoint registered (ls : list label) : list (list N * list N) :=
+  match ls with
+  | [] => []
+  | LRegister p m :: r => (p, m) :: registered r
+  | _ :: r => registered r
+  end.
+
